@@ -835,6 +835,64 @@ static void chain_tests(bool thorough)
   }
 }
 
+
+// ---------------------------------------------------------------- the checked raw-pointer entry points (C02)
+static void entry_tests()
+{
+  auto cell = sb->malloc_in_sandbox<const char*>();
+  GP* rawcell = reinterpret_cast<GP*>(cell.UNSAFE_unverified());
+  auto one = [&](const char* cls, const char* sbname, long off, const void* addr) {
+    for (int api = 0; api < 3; api++) {
+      static const char* AN[] = { "UNSAFE_accept_pointer", "tainted.assign_raw_pointer", "tainted_volatile.assign_raw_pointer" };
+      const void* got = nullptr;
+      *rawcell = (GP)0xBEEF;
+      const char* r = guarded([&] {
+        if (api == 0) {
+          got = sb->UNSAFE_accept_pointer((const char*)addr).UNSAFE_unverified();
+        } else if (api == 1) {
+          tainted<const char*, Sbx> t;
+          t.assign_raw_pointer(*sb, (const char*)addr);
+          got = t.UNSAFE_unverified();
+        } else {
+          (*cell).assign_raw_pointer(*sb, (const char*)addr);
+        }
+      });
+      tr::Ev e("entry");
+      e.str("api", AN[api]).str("cls", cls).str("sb", sbname).num("off", off).str("out", r).num("size", SIZE);
+      if (api < 2) {
+        e.wide("stored", got == nullptr ? -1 : (W)reinterpret_cast<uintptr_t>(got) - (W)BASE);
+      } else {
+        e.wide("stored", (W)*rawcell);
+      }
+      e.boolean("cellapi", api == 2);
+      out.put(e);
+    }
+  };
+  for (long off = 0; off < SIZE; off++) {
+    one("in", "s0", off, (const void*)(BASE + off));
+  }
+  for (long d : { -4096L, -17L, -1L }) {
+    one("out", "", d, (const void*)(BASE + d));
+  }
+  for (long d : { 0L, 1L, 4095L, 100000L }) {
+    one("out", "", SIZE + d, (const void*)(BASE + SIZE + d));
+  }
+  for (int k = 0; k < 2; k++) {
+    uintptr_t ob = others[k]->get_sandbox_impl()->base;
+    for (long off = 0; off < SIZE; off += 97) {
+      one("in", k == 0 ? "s1" : "s2", off, (const void*)(ob + off));
+    }
+    one("in", k == 0 ? "s1" : "s2", SIZE - 1, (const void*)(ob + SIZE - 1));
+  }
+  int on_stack = 0;
+  static int in_data = 0;
+  auto heap = std::make_unique<int>(0);
+  one("out", "", 0, &on_stack);
+  one("out", "", 0, &in_data);
+  one("out", "", 0, heap.get());
+  one("null", "", 0, nullptr);
+}
+
 static vm_library lib = { 1, { { "ret_ptr", (void*)&g_ret_ptr }, { "call_cb_with_ptr", (void*)&g_call_cb_with_ptr } } };
 
 int main(int argc, char** argv)
@@ -882,6 +940,8 @@ int main(int argc, char** argv)
     ptr_tests(rng, thorough);
   } else if (mode == "chain") {
     chain_tests(thorough);
+  } else if (mode == "entry") {
+    entry_tests();
   } else {
     return 2;
   }
